@@ -427,6 +427,12 @@ func (p *Pebble) getCeiling(key string) (returnedKey string, value []byte, close
 }
 
 func (p *Pebble) getLower(key string) (returnedKey string, value []byte, closer io.Closer, err error) {
+	if key == "" {
+		// Nothing sorts before the empty key. It cannot be used as an iterator
+		// upper bound: Pebble may treat an empty bound as "no bound".
+		return "", nil, nil, pebble.ErrNotFound
+	}
+
 	it, err := p.db.NewIter(&pebble.IterOptions{
 		UpperBound: []byte(key),
 	})
